@@ -302,6 +302,23 @@ theorem handleReplyStep_absent {cs cs' : CtxSt} {id : ReqId} {ok : Bool} {more :
           obtain ⟨rfl, -, -⟩ := hs
           constructor <;> (try intros) <;> simp only [upd] at * <;> grind
 
+theorem Absent.cancel {cs : CtxSt} {k k' : Key} {r : Rcv} (h : Absent cs k r) (g : ReqId → PObj → Bool) :
+    Absent { cs with lsubs := upd cs.lsubs k' [],
+                     pobj := fun pid => (cs.pobj pid).map (fun po => po.cancelIf (g pid po)) } k r := by
+  refine ⟨?_, ?_⟩
+  · simp only [upd]
+    split
+    · simp
+    · exact h.1
+  · intro pid po hk hpo
+    simp only at hk hpo
+    cases hp : cs.pobj pid with
+    | none => simp [hp] at hpo
+    | some po0 =>
+      simp only [hp, Option.map_some, Option.some.injEq] at hpo
+      subst hpo
+      simpa using h.2 pid po0 hk hp
+
 set_option maxHeartbeats 2000000 in
 /-- no micro step other than the subscribe steps for `(k, r)` themselves makes `r` a subscriber of `k` -/
 theorem absent_micro {s s' : State} {th : Th} {ch ch2 : Nat} {op : MOp} {rest : List MOp} {o : Out} {k : Key} {r : Rcv}
@@ -327,6 +344,7 @@ theorem absent_micro {s s' : State} {th : Th} {ch ch2 : Nat} {op : MOp} {rest : 
   all_goals (simp only [setProg_ctx, setCtx_ctx, State.setProg, if_true])
   all_goals (try exact ha')
   all_goals (try exact handleReplyStep_absent hp ha' ‹handleReplyStep _ _ _ = some _›)
+  all_goals (try exact ha'.cancel _)
   all_goals (try (simp only [MOp.isSubAdd, Bool.and_eq_false_iff, decide_eq_false_iff_not] at hop))
   all_goals (try (constructor <;> (try intros) <;> simp only [upd, peerRemovedStep] at * <;> grind))
 
